@@ -32,35 +32,6 @@ mod imp {
         }
     }
 
-    pub fn typelevel(_env: &Env, st: &mut Stats) -> Vec<Failure> {
-        st.eval();
-        match std::env::var("JMV_SENDSYNC").ok().as_deref() {
-            Some("ok") => {
-                st.class("typelevel:obligations-compiled");
-                for t in ["Expression<'static>", "Runtime", "Variable", "Rcvar", "Ast", "JmespathError", "Box<dyn Function>"] {
-                    st.nontrivial(t);
-                }
-                st.sample(|| json!({"obligation": "fn need<T: Send + Sync>() instantiated for Expression<'static>, Runtime, Variable, Rcvar, Ast, JmespathError, Box<dyn Function> -- compiled"}));
-                vec![]
-            }
-            Some(other) => vec![Failure::new(
-                "typelevel",
-                "not-send-sync",
-                format!("the Send/Sync obligations do not compile against the library built with `sync`: {}", other),
-                json!({"compiler_output": other}),
-            )],
-            None => vec![Failure::new("typelevel", "harness-no-sendsync-result", "JMV_SENDSYNC not set (run through run.sh)".into(), json!({}))],
-        }
-    }
-
-    pub fn replay_typelevel(_case: &serde_json::Value, env: &Env) -> CaseResult {
-        let mut st = Stats::new();
-        match typelevel(env, &mut st).into_iter().next() {
-            None => Ok(()),
-            Some(f) => Err(f),
-        }
-    }
-
     pub fn workload(src: &mut Src, st: &mut Stats, _env: &Env) -> CaseResult {
         // pools
         let n_expr = 2 + src.below(11);
@@ -305,6 +276,36 @@ mod imp {
     }
 }
 
+pub fn typelevel(_env: &Env, st: &mut Stats) -> Vec<Failure> {
+    st.eval();
+    match std::env::var("JMV_SENDSYNC").ok().as_deref() {
+        Some("ok") => {
+            st.class("typelevel:obligations-compiled");
+            for t in ["Expression<'static>", "Runtime", "Variable", "Rcvar", "Ast", "JmespathError", "Box<dyn Function>"] {
+                st.nontrivial(t);
+            }
+            st.sample(|| json!({"obligation": "fn need<T: Send + Sync>() instantiated for Expression<'static>, Runtime, Variable, Rcvar, Ast, JmespathError, Box<dyn Function> -- compiled"}));
+            vec![]
+        }
+        Some(other) => vec![Failure::new(
+            "typelevel",
+            "not-send-sync",
+            format!("the Send/Sync obligations do not compile against the library built with `sync`: {}", other),
+            json!({"compiler_output": other}),
+        )],
+        None => vec![Failure::new("typelevel", "harness-no-sendsync-result", "JMV_SENDSYNC not set (run through run.sh)".into(), json!({}))],
+    }
+}
+
+pub fn replay_typelevel(_case: &serde_json::Value, env: &Env) -> CaseResult {
+    let mut st = Stats::new();
+    match typelevel(env, &mut st).into_iter().next() {
+        None => Ok(()),
+        Some(f) => Err(f),
+    }
+}
+
+
 #[cfg(feature = "sync")]
 pub use imp::child_main;
 
@@ -314,26 +315,17 @@ pub fn child_main(_threads: usize) {
     std::process::exit(2);
 }
 
-#[cfg(not(feature = "sync"))]
-fn needs_sync(_env: &Env, _st: &mut Stats) -> Vec<Failure> {
-    vec![Failure::new("typelevel", "harness-needs-sync-build", "C16 must be run through run.sh (sync build variant)".into(), json!({}))]
-}
-
-#[cfg(not(feature = "sync"))]
-fn replay_none(_c: &serde_json::Value, _e: &Env) -> CaseResult {
-    Err(Failure::new("typelevel", "harness-needs-sync-build", "C16 must be replayed through run.sh".into(), json!({})))
-}
 
 pub fn property() -> Property {
     #[cfg(feature = "sync")]
     let subs = vec![
-        Sub::Custom(CustomSub { name: "typelevel", run: imp::typelevel, replay: imp::replay_typelevel }),
-        Sub::Bytes(BytesSub { name: "workload", f: imp::workload, max_len: 3000, quick: Budget { threads: 2, cases: 400 }, thorough: Budget { threads: 2, cases: 15_000 } }),
+        Sub::Custom(CustomSub { name: "typelevel", run: typelevel, replay: replay_typelevel }),
+        Sub::Bytes(BytesSub { name: "workload", f: imp::workload, max_len: 3000, quick: Budget { threads: 2, cases: 400 }, thorough: Budget { threads: 2, cases: 15_000 }, keep_unreproducible: true }),
         Sub::Custom(CustomSub { name: "first-use", run: imp::first_use, replay: imp::replay_first_use }),
         Sub::Custom(CustomSub { name: "tsan", run: imp::tsan, replay: imp::replay_tsan }),
     ];
     #[cfg(not(feature = "sync"))]
-    let subs = vec![Sub::Custom(CustomSub { name: "typelevel", run: needs_sync, replay: replay_none })];
+    let subs = vec![Sub::Custom(CustomSub { name: "typelevel", run: typelevel, replay: replay_typelevel })];
     Property {
         id: "C16",
         rule: RULE,
@@ -341,6 +333,7 @@ pub fn property() -> Property {
             "schedules are sampled by the operating system, not enumerated: a race that needs a rare interleaving can be missed (DESIGN.md section 6)".into(),
             "the Send/Sync layer is a compile-time obligation checked by rustc, reported here as a fact".into(),
         ],
+        minimise: None,
         subs,
     }
 }
